@@ -16,6 +16,10 @@ from healsparse.packedBoolArray import _PackedBoolArray  # noqa: E402
 
 import enc  # noqa: E402
 
+class HarnessOracle(AssertionError):
+    """a property-implied fact about the implementation alone, decided by the harness with exact arithmetic"""
+
+
 def RO(a):
     """an input array handed to the library READ-ONLY: a call that modifies its caller's array (pixel numbers
     shifted in place, weights zeroed in place, ...) raises instead of silently corrupting the caller's data —
@@ -23,6 +27,25 @@ def RO(a):
     a = np.asarray(a)
     a.setflags(write=False)
     return a
+
+
+def API(encfn, arr):
+    """encode an array RETURNED by a public call, then scribble over it: whatever the library hands out is the
+    caller's to modify — if it is secretly a view of the map's own storage (or of a cached array) the map is
+    damaged and the following observations differ from the model (seeded change C09g)"""
+    s = encfn(arr)
+    try:
+        a = np.asarray(arr)
+        if isinstance(arr, np.ndarray) and a.flags.writeable and a.size:
+            if a.dtype.fields is not None:
+                a[...] = np.zeros(1, dtype=a.dtype)[0]
+            elif a.dtype.kind == 'b':
+                a[...] = ~a
+            else:
+                a[...] = 77
+    except Exception:
+        pass
+    return s
 
 
 VARIANTS_APPLIED = [0]      # legacy / foreign file variants actually applied (evidence)
@@ -144,6 +167,8 @@ class Real(PackedOps, RandOps):
             return 'nomap', line
         except enc.Inexact:
             return 'inexact', line
+        except HarnessOracle as e:
+            return 'err HarnessOracle ' + str(e)[:240], line
         except Exception as e:  # the library raised
             return 'err ' + type(e).__name__, line
         if isinstance(res, tuple):
@@ -333,8 +358,8 @@ class Real(PackedOps, RandOps):
         if 'ring' in kv:
             ring = RO(np.array([int(t) for t in split_list(kv['ring'])], dtype=np.int64))
             if vm:
-                return enc_bits(m.get_values_pix(ring, nest=False, valid_mask=True))
-            return enc_cells(m.get_values_pix(ring, nest=False))
+                return API(enc_bits, m.get_values_pix(ring, nest=False, valid_mask=True))
+            return API(enc_cells, m.get_values_pix(ring, nest=False))
         if 'lon' in kv:
             lon = RO(np.array([float(t) for t in split_list(kv['lon'])]))
             lat = RO(np.array([float(t) for t in split_list(kv['lat'])]))
@@ -344,14 +369,14 @@ class Real(PackedOps, RandOps):
                 res = m.get_values_pos(lon, lat, valid_mask=vm)
             return enc_bits(res) if vm else enc_cells(res)
         if 'nsord' in kv:
-            return enc_cells(m.get_values_pix(pix, nside=2 ** int(kv['nsord'])))
+            return API(enc_cells, m.get_values_pix(pix, nside=2 ** int(kv['nsord'])))
         if vm:
             if path == 'pos':
                 lon, lat = hpg.pixel_to_angle(m.nside_sparse, pix)
-                return enc_bits(m.get_values_pos(lon, lat, valid_mask=True))
-            return enc_bits(m.get_values_pix(pix, valid_mask=True))
+                return API(enc_bits, m.get_values_pos(lon, lat, valid_mask=True))
+            return API(enc_bits, m.get_values_pix(pix, valid_mask=True))
         if path == 'pix':
-            return enc_cells(m.get_values_pix(pix))
+            return API(enc_cells, m.get_values_pix(pix))
         if path == 'getitem_arr':
             return enc_cells(m[pix])
         if path == 'getitem_list':
@@ -365,11 +390,11 @@ class Real(PackedOps, RandOps):
             return enc_cells(v)
         if path == 'pos':
             lon, lat = hpg.pixel_to_angle(m.nside_sparse, pix)
-            return enc_cells(m.get_values_pos(lon, lat))
+            return API(enc_cells, m.get_values_pos(lon, lat))
         raise BadOp(path)
 
     def op_covmask(self, pos, kv):
-        return enc_bits(self.m(pos[0]).coverage_mask)
+        return API(enc_bits, self.m(pos[0]).coverage_mask)
 
     def op_state(self, pos, kv):
         m = self.m(pos[0])
@@ -395,7 +420,7 @@ class Real(PackedOps, RandOps):
             v = m.valid_pixels_pos(return_pixels=True)[0]
         else:
             raise BadOp(path)
-        return enc_ints(sorted(int(x) for x in v))
+        return API(lambda a: enc_ints(sorted(int(x) for x in a)), v)
 
     def op_nvalid(self, pos, kv):
         m = self.m(pos[0])
@@ -416,14 +441,16 @@ class Real(PackedOps, RandOps):
 
     def op_covmap(self, pos, kv):
         m = self.m(pos[0])
-        x = m.coverage_map * m._cov_map.nfine_per_cov
+        cm = m.coverage_map
+        x = cm * m._cov_map.nfine_per_cov
+        API(lambda a: '', cm)          # the returned array is the caller's
         if np.any(np.abs(x - np.round(x)) > 1e-9):
             return 'nonintegral'
         return enc_nats(np.round(x).astype(np.int64))
 
     def op_vpsc(self, pos, kv):
         m = self.m(pos[0])
-        return enc_ints(sorted(int(x) for x in m.valid_pixels_single_covpix(int(kv['k']))))
+        return API(lambda a: enc_ints(sorted(int(x) for x in a)), m.valid_pixels_single_covpix(int(kv['k'])))
 
     def op_fracdet(self, pos, kv):
         m = self.m(pos[0])
@@ -446,9 +473,28 @@ class Real(PackedOps, RandOps):
         else:
             k = float(dec_dy(kv['k']))
         inplace = kv.get('inplace') == '1'
+        before = None
+        if kv['op'] == 'div' and not m.is_rec_array and not m.is_wide_mask_map and m.dtype.kind == 'f' and k != 0:
+            vp = m.valid_pixels
+            before = (vp, np.array(m.get_values_pix(vp)), m.dtype)
         r = getattr(m, self.PYOPS[kv['op']][1 if inplace else 0])(k)
         if r is NotImplemented:
             raise TypeError('NotImplemented')
+        if before is not None and isinstance(r, HealSparseMap):
+            # IEEE division is correctly rounded: (m / k)[p] must be THE float nearest to the exact quotient, in the
+            # map's precision (a float32 map divides by the scalar cast to float32) — decided with exact rationals,
+            # independent of the model, which declines non-dyadic quotients (seeded change C12g: x * (1/k))
+            from fractions import Fraction
+            import core
+            vp, xs, dt = before
+            prec = 24 if dt.itemsize == 4 else 53
+            kk = Fraction(float(np.float32(k))) if dt.itemsize == 4 else Fraction(float(k))
+            got = r.get_values_pix(vp)
+            for p, x, y in zip(vp.tolist(), xs.tolist(), got.tolist()):
+                want = core.round_to(Fraction(float(x)) / kk, prec)
+                if np.isfinite(y) and Fraction(float(y)) != want and float(want) != float(r._sentinel):
+                    raise HarnessOracle('division not correctly rounded at pixel %d: %r / %r gave %r, nearest is %r'
+                                        % (p, x, k, y, float(want)))
         if inplace:
             self.pool[pos[0]] = r
         else:
@@ -515,8 +561,8 @@ class Real(PackedOps, RandOps):
         if kv.get('via') == 'pos':
             # check_bits_pos at the pixel centres (positions -> pixels is hpgeom's, trusted)
             lon, lat = hpg.pixel_to_angle(m.nside_sparse, pix, nest=True, lonlat=True)
-            return enc_bits(m.check_bits_pos(lon, lat, bits, lonlat=True))
-        return enc_bits(m.check_bits_pix(pix, bits))
+            return API(enc_bits, m.check_bits_pos(lon, lat, bits, lonlat=True))
+        return API(enc_bits, m.check_bits_pix(pix, bits))
 
     def op_copy(self, pos, kv):
         self.pool[kv['r']] = self.m(pos[0]).copy()
@@ -703,7 +749,7 @@ class Real(PackedOps, RandOps):
         if 'pixels' in kv:
             kw['pixels'] = [int(t) for t in split_list(kv['pixels'])]
             if kv.get('idtype', 'list') != 'list':
-                kw['pixels'] = np.array(kw['pixels'], dtype=DTYPES[kv['idtype']])
+                kw['pixels'] = RO(np.array(kw['pixels'], dtype=DTYPES[kv['idtype']]))
         self.pool[kv['r']] = self.read_maybe_header(kv, path, **kw)
         return 'ok'
 
@@ -745,6 +791,8 @@ class Real(PackedOps, RandOps):
         kw = {}
         if 'pixels' in kv:
             kw['pixels'] = [int(t) for t in split_list(kv['pixels'])]
+            if kv.get('idtype', 'list') != 'list':
+                kw['pixels'] = RO(np.array(kw['pixels'], dtype=DTYPES[kv['idtype']]))
         if 'wf' in kv:
             if kv['wf'] not in self.files:
                 raise NoMap(kv['wf'])
@@ -799,7 +847,7 @@ class Real(PackedOps, RandOps):
             kw['reduction'] = kv.get('red', 'mean')
         if 'key' in kv:
             kw['key'] = m.dtype.names[int(kv['key'])]
-        out = enc_cells(m.generate_healpix_map(nest=(kv.get('nest', '1') == '1'), **kw))
+        out = API(enc_cells, m.generate_healpix_map(nest=(kv.get('nest', '1') == '1'), **kw))
         if 'ord' in kv and 'key' not in kv and (self.f4_sum_unsafe(m, kv.get('red', 'mean')) or
                                                  self.prod_range_unsafe(m, kv.get('red', 'mean'), int(kv['ord']))):
             return 'inexact'
@@ -809,7 +857,7 @@ class Real(PackedOps, RandOps):
         m = self.m(pos[0])
         lon = RO(np.array([float(t) for t in split_list(kv['lon'])]))
         lat = RO(np.array([float(t) for t in split_list(kv['lat'])]))
-        return enc_cells(m.interpolate_pos(lon, lat, allow_partial=(kv.get('partial') == '1')))
+        return API(enc_cells, m.interpolate_pos(lon, lat, allow_partial=(kv.get('partial') == '1')))
 
     def op_hpxwrite(self, pos, kv):
         m = self.m(pos[0])
